@@ -93,8 +93,10 @@ func (w *Writer) Rotate(fs storage.FileSystem) *Writer {
 	// Include all data from previous buffers
 	for i, b := range w.sealedBuffers {
 		nextLog.sealedBuffers[i] = &bufferSegment{buf: b.buf}
+		nextLog.sealedBuffers[i].latestSeqNum = b.latestSeqNum
 	}
 	nextLog.sealedBuffers[len(w.sealedBuffers)] = &bufferSegment{buf: w.activeBuffer.buf}
+	nextLog.sealedBuffers[len(w.sealedBuffers)].latestSeqNum = w.latestSeqNum
 
 	// And initialize a new active buffer
 	nextLog.activeBuffer = &bufferSegment{}
